@@ -130,6 +130,15 @@ func c17run(c c17case) *xplore.Violation {
 	return step("data", dmsg)
 }
 
+// c17guard: a decoder that loops or allocates without end on one of the cases becomes a violation naming it.
+func c17guard(rep *common.Reporter, replay string) *common.Guard {
+	return common.ReportingGuard(rep, replay, func(what interface{}) (string, string, interface{}) {
+		c := what.(c17case)
+		_, _, names := c17build(c)
+		return c.Mode.String(), fmt.Sprintf("template %v lenRot=%d records=%d mode=%s: decoding does not terminate promptly with bounded memory", names, c.LenRot, c.Records, c.Mode), c
+	})
+}
+
 func runC17(tier, replay string) int {
 	rep := common.NewReporter("C17")
 	if tier == "replay" {
@@ -143,6 +152,7 @@ func runC17(tier, replay string) int {
 		json.Unmarshal(b, &c)
 		tm, dm, names := c17build(c)
 		fmt.Printf("mode=%s template=%v\n template message %s\n data message %s\n", c.Mode, names, hex.EncodeToString(tm), hex.EncodeToString(dm[:min(len(dm), 80)]))
+		defer c17guard(rep, replay).Enter(c).Leave()
 		if v := c17run(c); v != nil {
 			fmt.Printf("replay: %s\nVIOLATION property=C17 replay=%s\n", v.Error(), replay)
 			return 1
@@ -193,6 +203,7 @@ func runC17(tier, replay string) int {
 	var idx int64 = -1
 	var wg sync.WaitGroup
 	var accepted, rejected int64
+	guard := c17guard(rep, "")
 	tmplSeen := map[string]bool{}
 	var mu sync.Mutex
 	for w := 0; w < runtime.NumCPU(); w++ {
@@ -205,7 +216,10 @@ func runC17(tier, replay string) int {
 					return
 				}
 				c := cases[i]
-				if v := c17run(c); v != nil {
+				slot := guard.Enter(c)
+				v := c17run(c)
+				slot.Leave()
+				if v != nil {
 					_, _, names := c17build(c)
 					rep.Report(c.Mode.String(), v.Kind, fmt.Sprintf("template %v lenRot=%d records=%d mode=%s: %s", names, c.LenRot, c.Records, c.Mode, v.Detail), c, nil)
 				}
